@@ -179,7 +179,20 @@ def emit_sip(w, src, must):
     w("")
 
 
-SECTIONS = [("codes", emit_codes), ("timers", emit_timers), ("guards", emit_guards), ("stun", emit_stun), ("sdp", emit_sdp), ("sip", emit_sip)]
+def emit_auth(w, src, must):
+    """the form of CredentialStore::add_for_realm the model of C18 depends on"""
+    a = src("crates/sip-auth/src/lib.rs")
+    body = a[a.index("pub fn add_for_realm"):]
+    body = body[:body.index("\n    }\n")]
+    ins = bool(re.search(r"self\.map\.insert\(\s*realm\.into\(\)\s*,\s*credentials\s*\)", body))
+    keep = bool(re.search(r"or_insert|Vacant|contains_key", body))
+    must(ins or keep, "CredentialStore::add_for_realm (HashMap::insert, or a form that keeps the first entry)")
+    w("(* CredentialStore::add_for_realm stores with HashMap::insert: the credentials given last for a realm replace the earlier ones (sip-auth/src/lib.rs) *)")
+    w("Definition auth_store_add_replaces : bool := %s." % ("true" if ins and not keep else "false"))
+    w("")
+
+
+SECTIONS = [("codes", emit_codes), ("timers", emit_timers), ("guards", emit_guards), ("stun", emit_stun), ("sdp", emit_sdp), ("sip", emit_sip), ("auth", emit_auth)]
 
 # which properties' models read which section of Gen/Tables.v
 SECTION_USERS = {
@@ -190,4 +203,5 @@ SECTION_USERS = {
     "stun": ["C20", "C16"],
     "sdp": ["C19"],
     "sip": ["C01"],
+    "auth": ["C18"],
 }
